@@ -4,6 +4,17 @@ open PathClean C41
 
 def flag (s : String) : Bool := s == "1"
 
+def unhexList (s : String) : Option (List Str) :=
+  if s == "=" then some [] else (s.splitOn ",").mapM unhex
+def hexList (xs : List Str) : String :=
+  if xs.isEmpty then "=" else ",".intercalate (xs.map hex)
+
+/-- the fixed sandbox of the `fsput` ops: `/S/root/link -> /S/outside`; regular files listed in `sandboxFiles` -/
+def sb (xs : List String) : List Str := xs.map String.toList
+def sandboxLinks : List (List Str × List Str) := [(sb ["S", "root", "link"], sb ["S", "outside"])]
+def sandboxFiles : List (List Str) :=
+  [sb ["S", "root", "in", "f"], sb ["S", "root", "f"], sb ["S", "outside", "secret"], sb ["S", "root-sibling", "f"]]
+
 def step (line : String) : String :=
   match (line.trimAscii.toString.splitOn " ").filter (· ≠ "") with
   | ["case", n] => s!"case {n}"
@@ -36,6 +47,28 @@ def step (line : String) : String :=
         | .http => s!"ok {hex s} http"
         | .disabled => s!"ok {hex s} disabled"
         | .openFile a => s!"ok {hex s} {hex a}"
+    | _, _ => "bad-op"
+  | ["putmany", af, au, r, fs] =>
+    match unhex r, unhexList fs with
+    | some root, some fulls =>
+      match putMany { allowFiles := flag af, allowUrls := flag au } root fulls with
+      | .ok ss => s!"ok {hexList ss}"
+      | .error i => s!"reject {i}"
+    | _, _ => "bad-op"
+  | ["fsput", r, f] =>
+    match unhex r, unhex f with
+    | some rootRel, some fullRel =>
+      let cfg : Cfg := { allowFiles := true, allowUrls := false }
+      let root := "/S".toList ++ rootRel
+      let full := "/S".toList ++ fullRel
+      match put cfg root full with
+      | .file s =>
+        match get cfg root s with
+        | .openFile a =>
+          let phys := physical sandboxLinks (cleanCP a).comps
+          if sandboxFiles.contains phys then s!"ok {hex s} {hex (joinSlash (phys.drop 1))}" else s!"ok {hex s} missing"
+        | _ => s!"ok {hex s} missing"
+      | _ => "reject"
     | _, _ => "bad-op"
   | _ => "bad-op"
 
